@@ -67,11 +67,18 @@ def ensure_driver():
         raise FactError("factgen driver does not build:\n" + r.stdout[-4000:])
 
 
+def slot_dir(slot):
+    """facts directory of a slot. The `repo` slot (facts of /repo itself) is shared and keyed by the tree's hash; every
+    other slot holds the facts of some scratch tree and is private to the process, so that self-tests / seed evaluations
+    running at the same time cannot replace each other's facts."""
+    return os.path.join(WORK, "facts-" + slot if slot == "repo" else "facts-%s-%d" % (slot, os.getpid()))
+
+
 def generate(repo="/repo", slot="repo", force=False, quiet=False):
     """Return the directory holding <crate>.json for the current state of `repo`."""
     ensure_driver()
     os.makedirs(WORK, exist_ok=True)
-    out = os.path.join(WORK, "facts-" + slot)
+    out = slot_dir(slot)
     target = os.path.join(WORK, "target-" + ("repo" if slot == "repo" else "scratch"))
     os.makedirs(out, exist_ok=True)
     lock = open(os.path.join(WORK, "lock-" + os.path.basename(target)), "w")
